@@ -69,33 +69,36 @@ def run(ctx):
     # ---- CONSERVE
     labels = set()
     for c in cases(A, an.push):
-        raw0 = c["obj0"].elems[an.i_raw].lin
-        p0 = Lin.const(0) if c["key"] == an.v_done else raw0
+        # pending bytes are observed through reset() (pending_of): before the call on the pre-state object, after it on the result
+        try:
+            p0 = pending_lin(A, an, c["st"], c["obj0"])
+        except Unsupported as e:
+            ctx.violation("R-C17-CONSERVE", "partition=%s|observer" % (c["key"],), where(an.push), "push_byte from state #%s: %s" % (c["key"], e))
+            continue
         for s2, label in classify_push(ip, c["st"], c["ret"], an):
             labels.add(label)
             obj = s2.mem[c["root"]]
-            var = an.variant_of(s2, obj)
-            raw1 = obj.elems[an.i_raw].lin
-            p1 = Lin.const(0) if var == an.v_done else raw1
             ctx.count("R-C17-CONSERVE")
+            posts = pending_of(A, an, s2, obj)
+            p1s = "/".join(s3.describe(p1) for s3, p1 in posts)
             if label == "Ok(false)":
-                ok = s2.prove_eq0(p1 - p0 - 1)
-                msg = "pending_after = pending_before + 1"
+                ok = all(s3.prove_eq0(p1 - p0 - 1) for s3, p1 in posts)
+                msg = "pending_after = pending_before + 1 (after=%s, before=%s)" % (p1s, s2.describe(p0))
             elif label == "Err(DiscardedBytes)":
                 n = err_payload(ip, s2, c["ret"])[0]
                 bad = lossy_syms(s2, n.lin)
-                ok = s2.prove_eq0(n.lin + p1 - p0 - 1) and not bad
+                ok = all(s3.prove_eq0(n.lin + p1 - p0 - 1) for s3, p1 in posts) and not bad
                 msg = "reported + pending_after = pending_before + 1 (reported=%s, after=%s, before=%s%s)" % (
-                    s2.describe(n.lin), s2.describe(p1), s2.describe(p0), (", lossy intermediates %r" % bad) if bad else "")
+                    s2.describe(n.lin), p1s, s2.describe(p0), (", lossy intermediates %r" % bad) if bad else "")
                 if len(ctx.samples) < 6:
-                    ctx.sample({"from_state": c["key"], "outcome": label, "reported": repr(n.lin), "pending_after": repr(p1),
+                    ctx.sample({"from_state": c["key"], "outcome": label, "reported": repr(n.lin), "pending_after": p1s,
                                 "pending_before": repr(p0), "conserved": ok})
             elif label == "Ok(true)":
-                ok = var == an.v_done
-                msg = "a delivered frame leaves nothing pending (state Done)"
+                ok = all(s3.prove_eq0(p1) for s3, p1 in posts)
+                msg = "a delivered frame leaves nothing pending (pending_after=%s)" % p1s
             else:
-                ok = s2.const_of(raw1) == 0 and var == an.v_look
-                msg = "a rejected frame consumes all pending bytes (counter back to 0)"
+                ok = all(s3.prove_eq0(p1) for s3, p1 in posts)
+                msg = "a rejected frame consumes all pending bytes (pending_after=%s)" % p1s
             ctx.oblig(ok)
             if not ok:
                 ctx.violation("R-C17-CONSERVE", "partition=%s|%s" % (c["key"], label), where(an.push),
